@@ -311,7 +311,9 @@ int splinetable_grideval(struct splinetable* table, const double* const* coords,
 //This exists to give C callers a way to call operator delete, since grideval
 //allocates with operator new which _might_ not be the same as malloc.
 void ndsparse_destroy(struct ndsparse* nd){
-	delete nd;
+	//the object was created by grideval as a photospline::ndsparse, whose
+	//destructor is what releases the arrays
+	delete static_cast<photospline::ndsparse*>(nd);
 }
 #endif //PHOTOSPLINE_INCLUDES_SPGLAM
 	
